@@ -188,8 +188,13 @@ def _call(it, e, env):
             return V("tuple", tup=tuple(argv), note="zip")
         if b == "enumerate":
             return V("tuple", tup=(argv[0],), note="enumerate")
-        if b in ("list", "tuple", "sorted", "reversed"):
+        if b in ("list", "tuple", "sorted", "reversed", "iter"):
             return argv[0] if argv else V("list", axis="empty")
+        if b == "next":
+            v = argv[0] if argv else unk()
+            if v.k == "list" and v.elem is not None:
+                return v.elem
+            return unk("next()")
         if b == "set":
             return V("set", elem=wild(()))
         if b == "sum":
@@ -561,6 +566,16 @@ def numpy_call(it, fn, d, e, env, argv, kw, args):
         axv = kw.get("axes", argv[1] if len(argv) > 1 else None)
         axes = _axes_from(axv) if axv is not None else None
         return transpose(it, a0, list(axes) if isinstance(axes, tuple) else None, e) if a0 is not None else unk()
+    if fn in ("moveaxis", "rollaxis"):
+        if a0 is not None and a0.is_numlike and a0.sh is not None and len(argv) >= 3 and argv[1].cval is not None and argv[2].cval is not None and fn == "moveaxis":
+            n_ = len(a0.sh)
+            i, j = norm_axis(int(argv[1].cval), n_), norm_axis(int(argv[2].cval), n_)
+            if i is not None and j is not None:
+                sh = list(a0.sh)
+                ax = sh.pop(i)
+                sh.insert(j, ax)
+                return a0.copy(sh=tuple(sh), cval=None)
+        return a0.copy(sh=None, cval=None) if a0 is not None and a0.is_numlike else unk()
     if fn == "swapaxes":
         if a0 is not None and a0.is_numlike and a0.sh is not None and len(argv) >= 3 and argv[1].cval is not None and argv[2].cval is not None:
             i, j = norm_axis(int(argv[1].cval), len(a0.sh)), norm_axis(int(argv[2].cval), len(a0.sh))
